@@ -764,6 +764,7 @@ def fanEvents (cs0 : Links) (trk : Tracker) (idx : Nat) (inc : Incoming) (now : 
 
 section scalar
 variable {F : Type} [Scalar F]
+variable {fa : List (Nat × Nat)}
 
 theorem cores_acks_fold (acks : List Nat) (ls : List (FLink F)) (now : Nat) :
     cores (acks.foldl (fun ls a => ls.map fun l => l.srtAck (toI32 a) now) ls) =
@@ -1683,7 +1684,7 @@ theorem potInv_mono {B B' : Nat} (hB : B ≤ B') (l : FLink F) (h : PotInv B l) 
 
 /-- One datagram forwarded on a link raises the bound by at most one. -/
 theorem potInv_fwdLink (B : Nat) (now : Nat) (l : FLink F) (pkt : List UInt8) (seq : Option Nat) (fn : List Nat)
-    (hs : SeqOk seq) (h : PotInv B l) : PotInv (B + 1) (Hk.fwdLink l pkt seq now fn).1 := by
+    (hs : SeqOk seq) (h : PotInv B l) : PotInv (B + 1) (Hk.fwdLink fa l pkt seq now fn).1 := by
   have h1 : PotInv (B + 1) (l.queueDataPacket pkt seq now).1 := by
     refine ⟨linkInv_queue now l pkt seq hs h.1, ?_⟩
     show l.core.inFlight + (((l.queue ++ [(pkt, seq, now)]).length : Nat) : Int) ≤ ((B + 1 : Nat) : Int)
@@ -1777,6 +1778,7 @@ theorem runInv_step (B : Nat) (s : Sys F) (e : Ev) (h : RunInv B s) (hm : KeepsM
   | setCfg cfg => exact ⟨hup h.pot, hm.1, hm.2, h.reg⟩
   | crit d => exact ⟨hup h.pot, h.classic, h.guard, h.reg⟩
   | failNext c => exact ⟨hup h.pot, h.classic, h.guard, h.reg⟩
+  | failAfter c kfa => exact ⟨hup h.pot, h.classic, h.guard, h.reg⟩
   | failBind c => exact ⟨hup h.pot, h.classic, h.guard, h.reg⟩
   | stamp idx weak ld ccb cct =>
     -- the verdict stamps are outside the accounting view; the hk arm's `Closed.soft` carries them
